@@ -68,13 +68,20 @@ def normalise(text, ip=MODP):
         out.append(l)
     return out
 def user_frames(lines):
-    """pairs (function line, position line) for frames of the module's packages."""
+    """pairs (function line, position line) for frames of the module's packages, in the first goroutine of the trace only:
+    with GOTRACEBACK=all the other goroutines are parked at statements that are not call sites (a channel receive, a
+    WaitGroup wait inlined away), which the property does not speak about."""
     fr = []
+    seen_goroutine = False
     for i, l in enumerate(lines):
+        if l.startswith("goroutine N ["):
+            if seen_goroutine: break
+            seen_goroutine = True
         if l.startswith("\t") and i > 0:
             fn = lines[i - 1]
             if fn.startswith(("main.", MODP + "/", "created by main.", "created by " + MODP)) or l.strip().startswith(MODP + "/"):
-                fr.append((fn, l.strip()))
+                # the pc offset (absent for inlined frames) is not something reverse touches, and inlining differs between the builds
+                fr.append((fn, re.sub(r" \+0x\?$", "", l.strip())))
     return fr
 CONFIGS = [[], ["-seed=AAAAAAAAAAA"]] if tier == "quick" else [[], ["-literals"], ["-seed=AAAAAAAAAAA"], ["-literals", "-seed=AAAAAAAAAAA"]]
 d0 = g.newdir("plain"); write_module(d0, files, modpath=MODP)
@@ -111,7 +118,10 @@ for fl, res, err, d in pmap(cfg_run, CONFIGS, workers=4):
             continue
         for (wf, wp), (gf, gp) in zip(want, got):
             compared += 1
-            if wf != gf:
+            if wf != gf and "-literals" in fl and re.sub(r"\.func\d+", ".funcN", wf) == re.sub(r"\.func\d+", ".funcN", gf):
+                # literal obfuscation adds function literals, which shifts the compiler's numbering of the user's own closures
+                R.violation("function-name:closure-index-under-literals", "flags %s chain %s/%s: frame %r reversed to %r" % (fl, kinds, term, wf, gf), {"module/" + k: v for k, v in files.items()})
+            elif wf != gf:
                 R.violation("function-name:" + "+".join(kinds), "flags %s chain %s/%s: frame %r reversed to %r" % (fl, kinds, term, wf, gf), {"module/" + k: v for k, v in files.items()})
             if wp != gp:
                 if risky: kind_sig = "multi-line-call"
